@@ -23,3 +23,10 @@ def run(ctx):
         reject.rule_powers_of_x(ctx, cfg, prog)
         scalar.rule_dispatch(ctx, cfg, prog)
         scalar.rule_cofactors(ctx, cfg, prog)
+        # hash-to-curve takes its y from get_point_from_x: the non-residue rejection and the y / -y selection are the decoder's (C09)
+        from . import c09
+        from .. import pathrules as pr
+        gps = pr.functions_named(prog, c09.NS + 'Affine::get_point_from_x')
+        ctx.floor('get_point_from_x instantiations[%s]' % cfg, len(gps), 2)
+        for f in gps:
+            c09.check_get_point(ctx, cfg, prog, f)
